@@ -43,6 +43,23 @@ def make_rep(names=None):
     return rep
 
 
+def make_complex_rep():
+    """the same representation conjugated by D = diag(1, i): rho_c(g) = D rho(g) D^-1, entries
+    [[m00, -i m01], [i m10, m11]] - genuinely complex matrices whose images follow from the spec's integer images"""
+    from geometry_tools import representation
+    rep = representation.Representation()
+    rep["a"] = np.array([[1.0, -2.0j], [0.0, 1.0]])
+    rep["b"] = np.array([[1.0, 0.0], [2.0j, 1.0]])
+    return rep
+
+
+def complex_table(evalt):
+    out = {}
+    for w, m in evalt.items():
+        out[w] = np.array([[m[0, 0], -1j * m[0, 1]], [1j * m[1, 0], m[1, 1]]])
+    return out
+
+
 def make_fsa(vs, E, start=0, relabel=None):
     FSA = fc.fsa_mod().FSA
     d = {v: {} for v in vs}
@@ -80,8 +97,11 @@ def check_result(res, want_words, with_words, evalt, letters_of=None):
         mats = np.asarray(res)
         if mats.shape != (len(want), 2, 2):
             return ("count", "returned %r matrices, spec %d words" % (mats.shape, len(want)))
-        got = sorted(tuple(np.round(m.flatten(), 6)) for m in mats)
-        exp = sorted(tuple(np.round(evalt[tuple(w)].flatten(), 6)) for w in want_words)
+        def flat(m):
+            m = np.asarray(m).astype(complex).flatten()
+            return tuple(np.round(np.concatenate([m.real, m.imag]), 6) + 0.0)
+        got = sorted(flat(m) for m in mats)
+        exp = sorted(flat(evalt[tuple(w)]) for w in want_words)
         if got != exp:
             return ("matrices", "multiset of matrices differs from the images of the accepted words")
     return None
@@ -103,6 +123,8 @@ def single_calls_chunk(args):
     keys, maxL, seed = args
     rep = make_rep()
     rep2 = make_rep(("s0", "s1"))
+    repc = make_complex_rep()
+    evalc = complex_table(EVAL[0])
     n = 0
     viol = []
     sample = None
@@ -137,6 +159,12 @@ def single_calls_chunk(args):
                                 try:
                                     res = rep.automaton_accepted(f, L, **kw)
                                     bad = check_result(res, want, ww, EVAL[0])
+                                    if bad is None and ew:
+                                        # a genuinely complex representation (same group, conjugated by diag(1, i))
+                                        resc = repc.automaton_accepted(f, L, **kw)
+                                        bad = check_result(resc, want, ww, evalc)
+                                        if bad:
+                                            bad = ("complex:" + bad[0], bad[1])
                                     if bad is None and not ew:
                                         # multi-character generator names, labels read as single generators
                                         res2 = rep2.automaton_accepted(f2, L, **kw)
@@ -153,10 +181,14 @@ def single_calls_chunk(args):
                                     sample = dict(kind="single call", vs=sorted(vs), E=sorted(E), dir=dirn, state=st, L=L,
                                                   maxlen=mx, words=sorted(W(w) for w in want))
         # agreement with the automaton's own enumeration
-        got = sorted(f.enumerate_words(maxL, with_states=False))
-        mats, words = rep.automaton_accepted(f, maxL, with_words=True)
-        if sorted(words) != got and len(viol) < 10:
-            viol.append((dict(vs=sorted(vs), E=sorted(E), what="enumerate_words"), ("agrees_with_enumerate_words", "%r != %r" % (sorted(words), got))))
+        try:
+            got = sorted(f.enumerate_words(maxL, with_states=False))
+            mats, words = rep.automaton_accepted(f, maxL, with_words=True)
+            if sorted(words) != got and len(viol) < 10:
+                viol.append((dict(vs=sorted(vs), E=sorted(E), what="enumerate_words"), ("agrees_with_enumerate_words", "%r != %r" % (sorted(words), got))))
+        except Exception as e:
+            if len(viol) < 10:
+                viol.append((dict(vs=sorted(vs), E=sorted(E), what="enumerate_words"), ("raised:agrees_with_enumerate_words", "%s: %s" % (type(e).__name__, e))))
     return n, viol, sample
 
 
@@ -426,5 +458,14 @@ def run(run, replay=None):
     run.nontrivial_count += tot
     run.actions["call(single)"] = tot
     run.extra["automata_for_single_calls"] = len(keys)
-    free_reduced(run)
-    builtin_and_multiples(run)
+    for part in (free_reduced, builtin_and_multiples):
+        try:
+            part(run)
+        except core.MachineryFailure:
+            raise
+        except Exception as e:      # a library call of this part raised on an in-domain input
+            import traceback
+            tb = traceback.extract_tb(e.__traceback__)
+            where = next((f for f in reversed(tb) if "geometry_tools" in f.filename), tb[-1])
+            run.violation("%s:raised:%s" % (part.__name__, type(e).__name__), "raised:" + part.__name__,
+                          dict(error="%s: %s" % (type(e).__name__, e), where="%s:%d %s" % (where.filename, where.lineno, where.name)))
